@@ -160,11 +160,15 @@ Definition skip_mem_spec (cs : list cause) (out : cval) : bool :=
   | [] => cval_eqb out out_ok
   | _ => own_fail_ok cs out
   end.
-(* over a source: srcfail says how a source failure must look *)
-Definition skip_src_spec (srcfail : cval -> bool) (stall : bool) (cs : list cause) (out : cval) : bool :=
+(* over a source: srcfail says how a source failure must look.  strict: running out of input is
+   the source's failure and must be reported as such (matchable with errors.Is), so an own
+   protocol error may only name a cause other than truncation; not strict (BytesSkipDecoder, in
+   memory): a protocol exception INVALID_DATA for truncation would be as good as its io.EOF *)
+Definition not_trunc (c : cause) : bool := negb (cause_eqb CTrunc c).
+Definition skip_src_spec (strict : bool) (srcfail : cval -> bool) (stall : bool) (cs : list cause) (out : cval) : bool :=
   match cs with
   | [] => cval_eqb out out_ok || (stall && srcfail out)
-  | _ => own_fail_ok cs out || ((has_trunc cs || stall) && srcfail out)
+  | _ => own_fail_ok (if strict then filter not_trunc cs else cs) out || ((has_trunc cs || stall) && srcfail out)
   end.
 
 Definition err_class {A} (r : res A) : Z :=
@@ -194,22 +198,22 @@ Definition check (c : cval) : verdict :=
   | L [L [I 0; I 4; I t; bs]; out] =>
     let b := vbytes bs in let ty := Z.to_N t in
     check_skip false (snd (bs_next (bs_new b) ty))
-      (skip_src_spec (src_match_ok e_eof false) false (skip_causes inl_none ty b)) out (1100 + mask_of inl_none ty b)
+      (skip_src_spec false (src_match_ok e_eof false) false (skip_causes inl_none ty b)) out (1100 + mask_of inl_none ty b)
   | L [L [I 0; I 5; I t; bs; L [I final; I wth; L chunks]]; out] =>
     let b := vbytes bs in let ty := Z.to_N t in
     let stall := has_zero chunks in
     check_skip true (snd (br_skip (new_reader (mk_src b final wth chunks)) ty))
-      (skip_src_spec (src_fail_ok final stall) stall (skip_causes inl_br ty b)) out (1200 + mask_of inl_br ty b)
+      (skip_src_spec true (src_fail_ok final stall) stall (skip_causes inl_br ty b)) out (1200 + mask_of inl_br ty b)
   | L [L [I 0; I 6; I t; bs; L [I final; I wth; L chunks]]; out] =>
     let b := vbytes bs in let ty := Z.to_N t in
     let stall := has_zero chunks in
     check_skip false (snd (pk_next (pk_new (new_reader (mk_src b final wth chunks))) ty))
-      (skip_src_spec (src_match_ok final stall) stall (skip_causes inl_none ty b)) out (1300 + mask_of inl_none ty b)
+      (skip_src_spec true (src_match_ok final stall) stall (skip_causes inl_none ty b)) out (1300 + mask_of inl_none ty b)
   | L [L [I 0; I 7; I t; bs; L [I final; I wth; L chunks]]; out] =>
     let b := vbytes bs in let ty := Z.to_N t in
     let stall := has_zero chunks in
     check_skip false (snd (rf_next (rf_new (mk_src b final wth chunks) 0) ty))
-      (skip_src_spec (src_match_ok final stall) stall (skip_causes inl_none ty b)) out (1400 + mask_of inl_none ty b)
+      (skip_src_spec true (src_match_ok final stall) stall (skip_causes inl_none ty b)) out (1400 + mask_of inl_none ty b)
   | L [L [I hint; I 0; I k; bs]; out] =>
     match kind_of_z k with
     | Some kd => let buf := vbytes bs in check_mem hint 0 (r_item kd buf) (ref_cause kd buf) out (100 + 8 * k)
